@@ -248,6 +248,22 @@ def run_reduce(unit):
                 agg.violation(V("aggregate.single-group", "raises-" + type(e).__name__, {"values": vals}))
                 continue
             agg.transitions += 1
+            # the single group may also be asked for with an EMPTY key list (the whole table is the group of the key tuple ()): one row,
+            # the same values, the custom function called once with every value
+            seen_ = []
+            try:
+                r0 = t.aggregate(over=[], sum_over="v", mean_over="v", min_over="v", max_over="v", count_over="v", stdev_over="v",
+                                 apply={"all": ("v", lambda xs: (seen_.append(list(xs)), len(list(xs)))[1])})
+                single0 = [list(c._underlying) for c in r0._underlying]
+            except Exception as e:
+                single0 = e
+            agg.evals += 1; agg.compared += 1
+            if isinstance(single0, Exception):
+                agg.skipped["empty-key-list-refused-" + type(single0).__name__] += 1        # refusing an empty key list is a choice; answering wrongly is not
+            elif any(len(c) != 1 for c in single0) or not all(gs.value_close(a[0], b) for a, b in zip(single0[:6], single)) or seen_ != [vals]:
+                agg.violation(V("aggregate.no-keys", "whole-table-group-differs-from-single-group-aggregate", {"values": vals}, single + [[vals]], single0 + [seen_]))
+            else:
+                agg.outcomes["reduce-agree"] += 1
             for i, fn in enumerate(gs.FNS):
                 if fn == "count":
                     continue
